@@ -348,6 +348,20 @@ func (e *endPoint) dispatch(msg *Message) error {
 			e.handlers[i] = nil
 		}
 	}
+	if ret == ErrNoMatch && msg.Header.Type == Call {
+		// nobody will ever answer this call (for instance it is
+		// addressed to a client side object which has been removed):
+		// tell the caller instead of letting it wait.
+		hdr := NewHeader(Error,
+			msg.Header.Service,
+			msg.Header.Object,
+			msg.Header.Action,
+			msg.Header.ID)
+		var buf bytes.Buffer
+		val := value.String(ret.Error())
+		val.Write(&buf)
+		e.Send(NewMessage(hdr, buf.Bytes()))
+	}
 	return ret
 }
 
